@@ -5,7 +5,7 @@ CONSTANTS
  Poll = 2
  Ticks = TRUE
  Defect = "none"
- MaxTime = 3
+ MaxTime = 2
  MaxAtt = 2
  ShutTOs <- TONever
  PCancel = {3}
@@ -13,7 +13,7 @@ CONSTANTS
  DL1 <- DL2
  DL2s <- DLN
  W3 <- WB
- Res <- R3
+ Res <- R2
 INVARIANTS Safety
 PROPERTIES Independent
 VIEW View
